@@ -181,6 +181,58 @@ pub fn scenarios() -> Vec<(&'static str, Op)> {
             }
             Held::of(owned, (keep, d))
         }),
+        // arguments of the wrong kind: a regular file where a directory is expected and vice versa,
+        // a regular file where a socket is expected - every one must fail (or work) without leaving anything open
+        ("wrong kind: Directory::open / remove_dir_all on a regular file", |e| {
+            let mut owned = Vec::new();
+            let mut keep: Vec<Box<dyn Any>> = Vec::new();
+            if let Ok(d) = Directory::open(&p(e, "file.txt")) {
+                owned.push(fd_of_dir(&d));
+                keep.push(Box::new(d));
+            }
+            let _ = tiny_std::fs::remove_dir_all(&p(e, "file.txt"));
+            let _ = tiny_std::fs::remove_dir(&p(e, "file.txt"));
+            Held::of(owned, keep)
+        }),
+        ("wrong kind: File::open / fs::read / read_to_string / copy_file on a directory", |e| {
+            let mut owned = Vec::new();
+            let mut keep: Vec<Box<dyn Any>> = Vec::new();
+            if let Ok(mut f) = File::open(&p(e, "dir")) {
+                let mut b = [0u8; 8];
+                let _ = f.read(&mut b);
+                owned.push(fd_of(&f));
+                keep.push(Box::new(f));
+            }
+            let _ = tiny_std::fs::read(&p(e, "dir"));
+            let _ = tiny_std::fs::read_to_string(&p(e, "dir"));
+            if let Ok(f) = tiny_std::fs::copy_file(&p(e, "dir"), &p(e, "copy2.bin")) {
+                owned.push(fd_of(&f));
+                keep.push(Box::new(f));
+            }
+            if let Ok(f) = tiny_std::fs::copy_file(&p(e, "file.txt"), &p(e, "dir")) {
+                owned.push(fd_of(&f));
+                keep.push(Box::new(f));
+            }
+            let _ = tiny_std::fs::write(&p(e, "dir"), b"x");
+            Held::of(owned, keep)
+        }),
+        ("wrong kind: UnixStream::connect / try_connect / UnixListener::bind on a regular file", |e| {
+            let mut owned = Vec::new();
+            let mut keep: Vec<Box<dyn Any>> = Vec::new();
+            if let Ok(s) = UnixStream::connect(&p(e, "file.txt")) {
+                owned.push(fd_of(&s));
+                keep.push(Box::new(s));
+            }
+            if let Ok(Some(s)) = UnixStream::try_connect(&p(e, "file.txt")) {
+                owned.push(fd_of(&s));
+                keep.push(Box::new(s));
+            }
+            if let Ok(l) = UnixListener::bind(&p(e, "file.txt")) {
+                owned.push(fd_of_ul(&l));
+                keep.push(Box::new(l));
+            }
+            Held::of(owned, keep)
+        }),
         ("fs::remove_dir_all", |e| {
             let _ = tiny_std::fs::remove_dir_all(&p(e, "victim"));
             Held::none()
